@@ -279,6 +279,11 @@ def _gen(spec_path: Path, root: Path, out_pkg: str, core_pkg: str | None, force:
         logging.disable(logging.NOTSET)
 
 
+# hand-written code that is NOT ruff-clean (unused / unsorted imports, formatting): a post-processing run that
+# reaches it rewrites it, which the byte snapshot shows
+UNCLEAN = "import sys, os\nimport json\nfrom typing import *\nx = {  'a':1 }\ndef  f( a,b ):\n  return a\n"
+
+
 def prepare_existing(root: Path, case: dict, spec_path: Path, other_spec: Path) -> None:
     """build the tree that exists before the observed call"""
     ex = case["existing"]
@@ -289,8 +294,20 @@ def prepare_existing(root: Path, case: dict, spec_path: Path, other_spec: Path) 
     # sentinels: at the root, in an unrelated package, beside the ancestors
     (root / "SENTINEL.txt").write_text("do not touch\n")
     (root / "other_pkg").mkdir(exist_ok=True)
-    (root / "other_pkg" / "keep.py").write_text("X = 1\n")
+    (root / "other_pkg" / "keep.py").write_text(UNCLEAN)
     (root / "other_pkg" / "__init__.py").write_text("")
+    (root / "legacy_root.py").write_text(UNCLEAN)
+    if case.get("user_pkg"):
+        # the user's own packages above the generated ones already exist and hold hand-written modules
+        for d in (out_dir, core_dir):
+            cur = d.parent
+            while cur != root and root in cur.parents:
+                (cur / "billing").mkdir(parents=True, exist_ok=True)
+                for p, text in ((cur / "__init__.py", ""), (cur / "legacy.py", UNCLEAN),
+                                (cur / "billing" / "__init__.py", ""), (cur / "billing" / "settings.py", UNCLEAN)):
+                    if not p.exists():
+                        p.write_text(text)
+                cur = cur.parent
     if ex == "none":
         return
     if ex == "empty":
@@ -316,7 +333,7 @@ def prepare_existing(root: Path, case: dict, spec_path: Path, other_spec: Path) 
     # a sentinel beside the generated package, inside every ancestor package
     cur = out_dir.parent
     while cur != root and root in cur.parents:
-        (cur / "sibling_keep.py").write_text("Y = 2\n")
+        (cur / "sibling_keep.py").write_text(UNCLEAN)
         cur = cur.parent
 
 
@@ -677,7 +694,10 @@ FAILS = [None] + STAGES
 
 def mk(out, core, force, existing, fail_at, spec=0, post=False, cwd_root=False) -> dict:
     return {"out": out, "core": core, "force": force, "post": post, "existing": existing, "fail_at": fail_at,
-            "spec": spec, "cwd_root": cwd_root}
+            "spec": spec, "cwd_root": cwd_root, "user_pkg": post}
+
+
+NESTED = [lay for lay in LAYOUTS if "." in lay[0]]
 
 
 def gen_cases(rng, thorough: bool) -> list[dict]:
@@ -726,8 +746,8 @@ def gen_cases(rng, thorough: bool) -> list[dict]:
         c["cli_core_omitted"] = core is None
         cases.append(c)
     # post-processing (real ruff): only existing trees whose diff decision does not depend on ruff's output
-    for _ in range(60 if thorough else 14):
-        out, core = rng.choice(LAYOUTS)
+    for _ in range(60 if thorough else 16):
+        out, core = rng.choice(NESTED if rng.random() < 0.7 else LAYOUTS)
         cases.append(mk(out, core, rng.random() < 0.5, rng.choice(["none", "different", "empty"]),
                         rng.choice([None, None, "Post", "Mocks", "Diff"]), spec=rng.randint(0, 1), post=True,
                         cwd_root=rng.random() < 0.4))
